@@ -451,9 +451,11 @@ func (d *badgerNodeDB) Finalize(roots []node.Root) error { // nolint: gocyclo
 	// All removals should be done at the end so in case finalization is interrupted, we can recover
 	// by simply redoing finalization. Flush batches here to ensure all node copying has been
 	// committed.
+	api.VerifCrashPoint()
 	if err := batch.Flush(); err != nil {
 		return err
 	}
+	api.VerifCrashPoint()
 	if err := batchMeta.Flush(); err != nil {
 		return err
 	}
@@ -498,9 +500,11 @@ func (d *badgerNodeDB) Finalize(roots []node.Root) error { // nolint: gocyclo
 	pendingIt.Close()
 
 	// Commit batches. If this fails, deletion will be redone.
+	api.VerifCrashPoint()
 	if err := batch.Flush(); err != nil {
 		return err
 	}
+	api.VerifCrashPoint()
 	if err := batchMeta.Flush(); err != nil {
 		return err
 	}
@@ -617,9 +621,11 @@ func (d *badgerNodeDB) Prune(version uint64) error {
 	}
 
 	// Commit batch.
+	api.VerifCrashPoint()
 	if err := batch.Flush(); err != nil {
 		return fmt.Errorf("mkvs/pathbadger: failed to flush batch: %w", err)
 	}
+	api.VerifCrashPoint()
 	if err := batchMeta.Flush(); err != nil {
 		return fmt.Errorf("mkvs/pathbadger: failed to flush batch: %w", err)
 	}
@@ -938,9 +944,11 @@ func (ba *badgerBatch) Commit(root node.Root) error {
 	}
 
 	// Flush node updates.
+	api.VerifCrashPoint()
 	if err := ba.batMeta.Flush(); err != nil {
 		return fmt.Errorf("mkvs/pathbadger: failed to flush batch: %w", err)
 	}
+	api.VerifCrashPoint()
 	if err := ba.bat.Flush(); err != nil {
 		return fmt.Errorf("mkvs/pathbadger: failed to flush batch: %w", err)
 	}
